@@ -228,6 +228,14 @@ def Ident.toStr : Ident → String
   | .int z => toString z
   | .str s => s
 
+def Ident.isInt : Ident → Bool
+  | .int _ => true
+  | .str _ => false
+
+def Ident.intVal : Ident → Int
+  | .int z => z
+  | .str _ => 0
+
 /-- the third field of an edge tuple -/
 inductive WField
   | absent              -- the tuple has length 2
@@ -249,38 +257,39 @@ def Graph.mapNames (g : Graph α) (h : α → β) : Graph β :=
     numeric iff every string parses (`parse` stands for Python's number syntax restricted to integers). -/
 def classify (parse : String → Option Int) (rows : List (Ident × Ident)) :
     Sum (List (Int × Int)) (List (String × String)) :=
-  let ints := rows.mapM fun r => match r with
-    | (.int a, .int b) => some (a, b)
-    | _ => none
-  match ints with
-  | some l => .inl l
-  | none =>
+  if rows.all (fun r => r.1.isInt && r.2.isInt) then .inl (rows.map fun r => (r.1.intVal, r.2.intVal))
+  else
     let ss := rows.map fun r => (r.1.toStr, r.2.toStr)
-    match ss.mapM (fun r => do pure ((← parse r.1), (← parse r.2))) with
-    | some l => .inl l
-    | none => .inr ss
+    if ss.all (fun r => (parse r.1).isSome && (parse r.2).isSome) then
+      .inl (ss.map fun r => ((parse r.1).getD 0, (parse r.2).getD 0))
+    else .inr ss
+
+/-- names of an integer / string graph as identifiers -/
+def liftNames (h : α → Ident) : Except PyErr (Graph α) → Except PyErr (Graph Ident)
+  | .ok g => .ok (g.mapNames h)
+  | .error e => .error e
+
+/-- `weights = np.array([edge[2] …])` iff the first tuple has length 3 -/
+def hasWeights : List EdgeTuple → Bool
+  | (_, _, .absent) :: _ => false
+  | [] => false
+  | _ => true
 
 /-- `from_edge_list(edge_list: list, …)` -/
 def fromEdgeListWith (symW : Flags → Bool) (parse : String → Option Int) (edges : List EdgeTuple) (f : Flags) :
-    Except PyErr (Graph Ident) := do
-  -- weights = np.array([edge[2] …]) iff the first tuple has length 3
-  let hasW := match edges with
-    | (_, _, .absent) :: _ => false
-    | [] => false
-    | _ => true
-  if hasW && edges.any (fun e => e.2.2 = .absent) then throw .indexError
+    Except PyErr (Graph Ident) :=
+  let hasW := hasWeights edges
+  -- a shorter tuple further down: `edge[2]` fails
+  if hasW && edges.any (fun e => e.2.2 = .absent) then .error .indexError
   -- an empty list gives a 1-d array: `edge_array[:, 0]` fails when bipartite
-  if edges.isEmpty && (f.bipartite) then throw .indexError
-  if hasW && edges.any (fun e => e.2.2 = .text) then throw .valueError
-  let weights : Option (List Rat) :=
-    if hasW then some (edges.map fun e => match e.2.2 with | .num w => w | _ => 0) else none
-  match classify parse (edges.map fun e => (e.1, e.2.1)) with
-  | .inl rows => do
-    let g ← fromEdgeArrayWith symW ltInt (some id) rows weights f
-    pure (g.mapNames .int)
-  | .inr rows => do
-    let g ← fromEdgeArrayWith symW ltStr none rows weights f
-    pure (g.mapNames .str)
+  else if edges.isEmpty && f.bipartite then .error .indexError
+  else if hasW && edges.any (fun e => e.2.2 = .text) then .error .valueError
+  else
+    let weights : Option (List Rat) :=
+      if hasW then some (edges.map fun e => match e.2.2 with | .num w => w | _ => 0) else none
+    match classify parse (edges.map fun e => (e.1, e.2.1)) with
+    | .inl rows => liftNames .int (fromEdgeArrayWith symW ltInt (some id) rows weights f)
+    | .inr rows => liftNames .str (fromEdgeArrayWith symW ltStr none rows weights f)
 
 def fromEdgeList := fromEdgeListWith (fun f => f.weighted)
 
